@@ -14,6 +14,8 @@ from pgv import core  # noqa: E402
 # property -> (Lean modules to build, Gen files to regenerate, drivers)
 CONFIG = {
     "C01": dict(gen=["Units"], drivers=["Units"]),
+    "C20": dict(gen=["Registry"], drivers=["Registry"]),
+    "C10": dict(gen=["Models"], drivers=["ModelsF"], extra_prop_files=["PgVerif/Tie/Models.lean"]),
 }
 
 
@@ -23,7 +25,9 @@ def setup():
     translate.generate(core.SRC, core.LEAN / "PgVerif" / "Gen", None)
     mods = []
     for pid, cfg in CONFIG.items():
-        mods.append(f"PgVerif.Props.{pid}")
+        ck = core.Check(pid, "quick", 0)
+        ck.extra_prop_files = list(cfg.get("extra_prop_files", ()))
+        mods += [".".join(f.relative_to(core.LEAN).with_suffix("").parts) for f in ck.prop_files()]
         mods += [f"PgVerif.Drv.{d}" for d in cfg.get("drivers", [])]
     rc, out, err = core.sh(["lake", "build"] + sorted(set(mods)), cwd=core.LEAN, timeout=7200)
     sys.stdout.write(out[-3000:])
@@ -48,7 +52,8 @@ def main():
     mod = importlib.import_module(pid.lower())
     cfg = CONFIG[pid]
     return core.run_check(pid, a.tier, seed, a.replay, mod.run, modules=cfg.get("modules"), gen=cfg.get("gen"),
-                          drivers=cfg.get("drivers", ()), level=cfg.get("level", "proof"))
+                          drivers=cfg.get("drivers", ()), level=cfg.get("level", "proof"),
+                          extra_prop_files=cfg.get("extra_prop_files", ()))
 
 
 if __name__ == "__main__":
